@@ -557,6 +557,8 @@ class CallMixin:
         the result is ordered by the abstract key  <model fn>(x)  (T4: sorted orders by key; f is a pure function,
         so its proved postconditions hold for the key of every element -- the contract's `key_axioms`)."""
         kf = kws['key']
+        if isinstance(kf, VFunc) and kf.kind == 'lambda':
+            return self.assume_sorted_by_lambda(R, kf, kws, st, node)
         if not (isinstance(kf, VFunc) and kf.kind == 'def' and kf.data['qual'] in self.contracts):
             return False
         c = self.contracts[kf.data['qual']]
@@ -611,6 +613,40 @@ class CallMixin:
         i, j = z3.Int(fresh_name('i')), z3.Int(fresh_name('j'))
         a, b = z3.Select(R.arr, i), z3.Select(R.arr, j)
         st.assume(z3.ForAll([i, j], z3.Implies(z3.And(0 <= i, i < j, j < R.n), le(b, a) if rev else le(a, b))), qf=False)
+
+    def assume_sorted_by_lambda(self, R, kf, kws, st, node):
+        """sorted/sort with key=lambda x: <pure integer expression of x>: ordered by that expression (T4)"""
+        lam = kf.data['node']
+        if len(lam.args.args) != 1:
+            return False
+        rev = False
+        if 'reverse' in kws:
+            rc = kws['reverse']
+            if not (isinstance(rc, VBool) and (z3.is_true(rc.z) or z3.is_false(rc.z))):
+                return False
+            rev = z3.is_true(rc.z)
+        i, j = z3.Int(fresh_name('si')), z3.Int(fresh_name('sj'))
+        elem = from_z3(z3.Select(R.arr, i), R.et)
+        caller = st.fid
+        st.fid = st.new_frame({lam.args.args[0].arg: elem}, parent=kf.data['fid'])
+        npc = len(st.pc) - st.closed_defs
+        old_spec, self.spec = self.spec, True
+        self.in_quant += 1
+        try:
+            val = self.pure(lam.body, st)
+        except Unsupported:
+            return False
+        finally:
+            self.spec = old_spec
+            self.in_quant -= 1
+            st.fid = caller
+        if len(st.pc) - st.closed_defs != npc or not isinstance(val, (VInt, VBool)):
+            return False
+        ki = to_z3(val, T_INT)
+        kj = z3.substitute(ki, (i, j))
+        st.assume(z3.ForAll([i, j], z3.Implies(z3.And(0 <= i, i < j, j < R.n), ki >= kj if rev else ki <= kj)), qf=False)
+        self.note('rule', (node.lineno, ast.unparse(node)[:60], 'sort by key=lambda: permutation ordered by the integer key expression'))
+        return True
 
     def bi_int(self, args, kws, st, node, k):
         v = args[0]
@@ -792,6 +828,8 @@ class CallMixin:
                 R = self.permutation_of(h, st)
                 if 'key' not in kws:
                     self.assume_sorted(R, st, 'reverse' in kws)
+                else:
+                    self.assume_sorted_by_key(R, kws, st, node)
                 st.heap[recv.rid] = R
             return k(st, NONE)
         if name == 'copy':
